@@ -6,14 +6,6 @@ From PW.model Require Import M_shape.
 Import ListNotations.
 
 (* ---- what it means for one dimension / a whole shape to be "as written in the pattern" ----------------- *)
-Definition dim_ok (b : benv) (d : dim) (n : nat) : Prop :=
-  match d with
-  | DInt m => n = m
-  | DAny => True
-  | DVar x => lookup b x = Some n
-  | DVarOrAny x => lookup b x = Some n \/ lookup b x = None
-  end.
-
 Lemma match_dim_spec b d n : match_dim b d n = true <-> dim_ok b d n.
 Proof.
   destruct d as [m| |x|x]; simpl.
@@ -127,44 +119,6 @@ Proof.
 Qed.
 
 (* ---- declarative meaning of one check ---------------------------------------------------------------------- *)
-(* "argument a is an array whose shape matches one of the patterns ps under bindings b" *)
-Definition matches_one_of (b : benv) (args : aenv) (a : string) (ps : list pattern) : Prop :=
-  exists s, args a = AArr s /\ exists p, In p ps /\ match_pattern b p s = true.
-
-Fixpoint check_holds (c : check) (args : aenv) (b : benv) : Prop :=
-  match c with
-  | Check a p _ => matches_one_of b args a [p]
-  | CheckAny a ps _ => matches_one_of b args a ps
-  | Columnize a p =>
-      match p with
-      | [_] => args a = ANumber \/ matches_one_of b args a [p]
-      | _ => exists s, args a = AArr s /\ match_pattern b (columnize_pattern p s) s = true
-      end
-  | CheckFlat a p =>
-      (exists s, args a = AArr s /\ match_pattern b p [size_of s] = true) \/
-      (args a = ANumber /\ match_pattern b p [1%nat] = true)
-  | CheckSame a other => exists s, args other = AArr s /\ args a = AArr s
-  | CheckEach a p =>
-      (exists ss, args a = ASeq ss /\ forall s, In s ss -> match_pattern b p s = true) \/
-      (exists n s, args a = AArr (n :: s) /\ (n = 0%nat \/ match_pattern b p s = true))
-  | NeedsShape a => exists s, args a = AArr s
-  | IfPresent a c' => args a = ANone \/ check_holds c' args b
-  end.
-
-(* the bindings after a successful check *)
-Fixpoint bindings_after (c : check) (args : aenv) (b : benv) : benv :=
-  match c with
-  | Check a p bd =>
-      match args a with AArr s => bind b bd (wild_value b p s) | _ => b end
-  | CheckAny a ps bd =>
-      match args a with
-      | AArr s => match first_match b ps s with Some p => bind b bd (wild_value b p s) | None => b end
-      | _ => b
-      end
-  | IfPresent a c' => match args a with ANone => b | _ => bindings_after c' args b end
-  | _ => b
-  end.
-
 Lemma run_check_ok_iff c : forall args b b',
   run_check c args b = Ok b' <-> (check_holds c args b /\ b' = bindings_after c args b).
 Proof.
@@ -180,14 +134,16 @@ Proof.
   - (* CheckAny *)
     unfold matches_one_of, vraise. destruct ps as [|p0 ps0].
     + split; [discriminate|]. intros [[s [_ [p [[] _]]]] _].
-    + remember (p0 :: ps0) as ps. clear Heqps.
-      destruct (args a) as [| |s|ss]; try (split; [discriminate|intros [[s' [H _]] _]; discriminate]).
+    + assert (NF : forall e b'', any_fail (p0 :: ps0) e <> Ok b'') by (intros; unfold any_fail; destruct ps0; discriminate).
+      remember (p0 :: ps0) as ps. clear Heqps.
+      destruct (args a) as [| |s|ss];
+        try (split; [intros H; exfalso; exact (NF _ _ H)|intros [[s' [H _]] _]; discriminate]).
       destruct (first_match b ps s) as [p|] eqn:E.
       * split.
         -- intros H; inversion H; subst. split; auto. exists s; split; auto.
            apply first_match_some_in in E. exists p; exact E.
         -- intros [_ ->]. reflexivity.
-      * split; [discriminate|]. intros [[s' [H [p' [Hin Hm]]]] _]. inversion H; subst.
+      * split; [intros H; exfalso; exact (NF _ _ H)|]. intros [[s' [H [p' [Hin Hm]]]] _]. inversion H; subst.
         rewrite first_match_none in E. rewrite (E _ Hin) in Hm. discriminate.
   - (* Columnize *)
     unfold vraise.
@@ -259,18 +215,6 @@ Proof.
 Qed.
 
 (* ---- a whole contract ------------------------------------------------------------------------------------------ *)
-Fixpoint contract_holds (cs : list check) (args : aenv) (b : benv) : Prop :=
-  match cs with
-  | [] => True
-  | c :: r => check_holds c args b /\ contract_holds r args (bindings_after c args b)
-  end.
-
-Fixpoint final_bindings (cs : list check) (args : aenv) (b : benv) : benv :=
-  match cs with
-  | [] => b
-  | c :: r => final_bindings r args (bindings_after c args b)
-  end.
-
 (* the contract succeeds iff EVERY check's argument matches one of its patterns under the bindings
    accumulated so far: nothing is broadcast, skipped or silently accepted *)
 Lemma run_contract_ok_iff cs : forall args b b',
@@ -310,29 +254,16 @@ Qed.
 (* ---- the exception class -------------------------------------------------------------------------------------- *)
 (* the arguments have the Python kinds the checks are written for (arrays; a tuple for *transforms; None only
    for optional arguments).  Under that assumption a rejected call raises ValueError and nothing else. *)
-Definition is_arr (v : argv) : bool := match v with AArr _ => true | _ => false end.
-Fixpoint kind_ok (args : aenv) (c : check) : bool :=
-  match c with
-  | Check _ _ _ => true
-  | CheckAny a ps _ => match ps with [] => true | _ => match args a with AArr _ | ANone => true | _ => false end end
-  | Columnize a p => match p with [_] => true | _ => is_arr (args a) end
-  | CheckFlat _ _ => true
-  | CheckSame _ other => is_arr (args other)
-  | CheckEach a _ => match args a with ASeq _ | AArr (_ :: _) => true | _ => false end
-  | NeedsShape a => is_arr (args a)
-  | IfPresent a c' => match args a with ANone => true | _ => kind_ok args c' end
-  end.
-
 Lemma failing_check_raises_ValueError c : forall args b e,
   kind_ok args c = true -> run_check c args b = Raise e -> e = ValueError.
 Proof.
   induction c as [a p bd|a ps bd|a p|a p|a other|a p|a|a c IH]; intros args b e; cbn [run_check kind_ok]; unfold vraise.
   - intros _. destruct (args a); try (intros H; inversion H; reflexivity).
     destruct (match_pattern b p s); intros H; inversion H; reflexivity.
-  - destruct ps as [|p0 ps0]; [intros _ H; inversion H; reflexivity|].
+  - destruct ps as [|p0 [|p1 ps1]]; [intros _ H; inversion H; reflexivity|discriminate|].
     destruct (args a); try discriminate; intros _.
     + intros H; inversion H; reflexivity.
-    + destruct (first_match b (p0 :: ps0) s); intros H; inversion H; reflexivity.
+    + destruct (first_match b (p0 :: p1 :: ps1) s); intros H; inversion H; reflexivity.
   - destruct p as [|d [|d2 p]].
     + destruct (args a); try discriminate. intros _.
       destruct (match_pattern b _ s); intros H; inversion H; reflexivity.
@@ -406,19 +337,6 @@ Proof.
 Qed.
 
 (* ---- coverage of documented arguments (used for the finite table in props/C20.v) ------------------------------ *)
-Definition mem (x : string) (l : list string) : bool := existsb (String.eqb x) l.
-
-(* every documented array argument of `name` is constrained by a check of its effective contract *)
-Definition covered (cs : contracts) (deleg : list (string * list delegate)) (name : string) (arg : string) : bool :=
-  mem arg (checked_args (contract_of cs name)) ||
-  existsb (fun d : delegate =>
-             existsb (fun w : string * source =>
-                        match snd w with
-                        | FromArg y => String.eqb y arg && mem (fst w) (checked_args (contract_of cs (callee d)))
-                        | Const _ => false
-                        end) (wiring d))
-          (match assoc deleg name with Some ds => ds | None => [] end).
-
 Lemma mem_In x l : mem x l = true <-> In x l.
 Proof.
   unfold mem. rewrite existsb_exists. split.
